@@ -6,7 +6,7 @@ proof:          coq/C08/Properties.v (theorems about the real instance of coq/C0
 correspondence: random operation sequences are run on a live PopulationBalanceModel; for every
                 operation the state before it is shipped exactly to Coq, the model executes the same
                 operation on exact rationals (vm_compute) and every public attribute (min, max, bins,
-                PSD, PSDbounds, PSDsize, _prevPSD, _prevPSDbounds, return value / exception) is compared
+                PSD, PSDbounds, PSDsize, the backup as revert() would install it, return value / exception) is compared
                 with what the implementation reached.  The constructor and short whole sequences are
                 also executed from `init cfg` inside Coq and compared with the final state.
 search:         an oracle written from the property text (plain loops, independent of the code under
@@ -34,18 +34,45 @@ LIST_KEYS = {'newN', 'vals', 'data', 'N', 'w'}
 
 # ------------------------------------------------------------------------------------------
 # implementation side
+# Only the public surface of PopulationBalanceModel is used (documented attributes min, max, bins, PSD, PSDbounds,
+# PSDsize, originalMin/Max/Bins, minBins, maxBins and the public methods): a rewrite that renames private attributes or
+# extracts helpers must not disturb the check.
+#  - the hidden backup is observed through its behaviour: what revert() would install, on a copy of the object;
+#  - the adaptive-binning switch has a public setter and no getter: the harness remembers what it set (the class documents
+#    nothing else; the constructor switches it on, as the model's init does - a different default shows up in Adjust).
+ADAPTIVE = '_c08_harness_adaptive'
+
+
 def new_pbm(cfg):
     from kawin.precipitation.PopulationBalance import PopulationBalanceModel
-    return PopulationBalanceModel(cfg['cMin'], cfg['cMax'], cfg['bins'], cfg['minBins'], cfg['maxBins'])
+    p = PopulationBalanceModel(cfg['cMin'], cfg['cMax'], cfg['bins'], cfg['minBins'], cfg['maxBins'])
+    setattr(p, ADAPTIVE, True)
+    return p
+
+
+def observe_backup(p):
+    """(PSD, PSDbounds, error) that revert() would install now - the content of the backup, whatever it is called inside.
+    error is set when the implementation's own revert() raises on the copy (a behaviour of the public API, judged by the
+    oracle); failing to copy the object is a broken tie, not a property violation"""
+    try:
+        q = copy.deepcopy(p)
+    except Exception as e:
+        raise RuntimeError('tie broken: the PopulationBalanceModel cannot be copied to observe its backup: %s: %s' % (type(e).__name__, e))
+    try:
+        q.revert()
+        return [float(x) for x in np.ravel(q.PSD)], [float(x) for x in np.ravel(q.PSDbounds)], None
+    except Exception as e:
+        return [], [], '%s: %s' % (type(e).__name__, e)
 
 
 def snap(p):
+    ppsd, pbounds, rerr = observe_backup(p)
     return {'min': float(p.min), 'max': float(p.max), 'bins': int(p.bins),
             'psd': [float(x) for x in np.ravel(p.PSD)], 'bounds': [float(x) for x in np.ravel(p.PSDbounds)],
             'size': [float(x) for x in np.ravel(p.PSDsize)],
-            'ppsd': [float(x) for x in np.ravel(p._prevPSD)], 'pbounds': [float(x) for x in np.ravel(p._prevPSDbounds)],
+            'ppsd': ppsd, 'pbounds': pbounds, 'revert_error': rerr,
             'omin': float(p.originalMin), 'omax': float(p.originalMax), 'obins': int(p.originalBins),
-            'minBins': int(p.minBins), 'maxBins': int(p.maxBins), 'adaptive': bool(p._adaptiveBinSize)}
+            'minBins': int(p.minBins), 'maxBins': int(p.maxBins), 'adaptive': bool(getattr(p, ADAPTIVE))}
 
 
 def fit(vals, n):
@@ -84,6 +111,7 @@ def apply_op(p, op):
             p.LoadDistribution(np.array(op['data'], dtype=float))
         elif k == 'SetAdaptive':
             p.setAdaptiveBinSize(op['a'])
+            setattr(p, ADAPTIVE, bool(op['a']))
         elif k == 'Moments':
             op['N'] = fit(op['N'], p.bins)
             op['w'] = fit(op['w'], p.bins)
@@ -203,6 +231,8 @@ def oracle_step(pre, op, post, ret, err, extra):
         return v
     if consistent(pre):
         return v        # already inconsistent before this operation: reported where it broke
+    if post.get('revert_error') and not pre.get('revert_error') and k != 'Moments':
+        v.append(('consistent', 'revert raises', 'after %s a revert() raises %s' % (k, post['revert_error'])))
     if k == 'Reset' and op['rb'] and not err:
         # reset restores the initial grid (checked on its own, also when the result is not even consistent)
         exp = own_linspace(pre['omin'], pre['omax'], pre['obins'])
@@ -242,6 +272,8 @@ def oracle_step(pre, op, post, ret, err, extra):
 
 def oracle_trace(trace):
     out = []
+    if trace and trace[0][0].get('revert_error'):
+        out.append((0, 'consistent', 'revert raises', 'on a new object revert() raises %s' % trace[0][0]['revert_error']))
     for i, (pre, op, post, ret, err, extra) in enumerate(trace):
         for h in oracle_step(pre, op, post, ret, err, extra):
             out.append((i,) + h)
@@ -588,7 +620,7 @@ def step_term(pre, op, post, ret, err, extra):
     return 'check08 %s %s %s %s' % (RT, state_lit(pre), op_lit(op), post_lit(post, ret, err))
 
 
-FIELDS = ['min', 'max', 'bins', 'PSD', 'PSDbounds', 'PSDsize', '_prevPSD', '_prevPSDbounds', 'return value / exception']
+FIELDS = ['min', 'max', 'bins', 'PSD', 'PSDbounds', 'PSDsize', 'backupPSD', 'backupPSDbounds', 'return value / exception']
 
 
 def read_verdict(op, post, res):
@@ -614,8 +646,8 @@ def read_verdict(op, post, res):
     rep('PSD', vpsd, post['psd'])
     rep('PSDbounds', vb, post['bounds'])
     rep('PSDsize', vs, post['size'])
-    rep('_prevPSD', vpp, post['ppsd'])
-    rep('_prevPSDbounds', vpb, post['pbounds'])
+    rep('backupPSD', vpp, post['ppsd'])
+    rep('backupPSDbounds', vpb, post['pbounds'])
     if not retok:
         dis.append('return value / exception differs from the model')
     return dis, False
@@ -782,6 +814,9 @@ def explore(ctx, seqs, label, ship=None, shard=None):
                 dis_all.append((cfg, ops[:ti + 1], '%s raised %s: %s' % (op['op'], err, extra)))
                 continue
             if op['op'] == 'Moments' and err:
+                continue
+            if pre.get('revert_error') or post.get('revert_error'):
+                dis_all.append((cfg, ops[:ti + 1], 'backup: revert() raises %s' % (post.get('revert_error') or pre.get('revert_error'))))
                 continue
             if not (finite_state(pre) and finite_state(post)):
                 dis_all.append((cfg, ops[:ti + 1], 'non-finite value in the state after %s' % op['op']))
